@@ -947,7 +947,13 @@ def trees(rng, n):
                     mk(c, depth + 1, name + "y")
                 else:
                     kind = rng.random()
-                    if kind < 0.06:
+                    if kind < 0.03 and (G // 2) % 60 == 0:
+                        # the group itself is asked for, and the bound lies inside a slot (the predecessor ends mid-slot): the task
+                        # cannot progress (D21), and nothing may be recorded as used on the group
+                        pre = p.add_task(name + "pre", parent=parent, effort=G * rng.randint(1, 3) + G // 2, alloc=[rng.choice(rs)])
+                        leaves.append(pre)
+                        t = p.add_task(name, parent=parent, effort=G * rng.randint(1, 4), alloc=[grp], deps=[(pre, False, 0)])
+                    elif kind < 0.06:
                         t = p.add_task(name, parent=parent, effort=G * rng.randint(1, 4), alloc=[grp], alt=[rng.choice(rs)])
                     elif kind < 0.10:
                         t = p.add_task(name, parent=parent, effort=G * rng.randint(1, 4), alloc=[rng.choice(rs)], alt=[grp])
